@@ -24,7 +24,10 @@ import (
 var c15Ops = []string{"dispatch a", "dispatch b", "delete oldest", "delete newest", "delete unknown",
 	"join mock all", "join mock a", "join v1 all", "join v1 a", "join v2 all", "join v2 a", "join v2lazy all", "leave 0", "leave 1",
 	// a burst that fills the queue (100 entries) of a monitor that is not reading, and that monitor catching up
-	"dispatch100 a", "drainlazy"}
+	"dispatch100 a", "drainlazy",
+	// delete of a message that has already left the retained history (the retention scanner
+	// deleting the oldest message of the store): the history is unaffected
+	"delete evicted"}
 
 type c15Case struct {
 	History int      `json:"history"`
@@ -178,6 +181,16 @@ func c15Exec(c *fw.Ctx, hlen int, seq []int) (key string, extend, nontrivial boo
 				if f[1] == "oldest" && len(h) > 0 {
 					p := strings.SplitN(h[0], "/", 2)
 					mb, id = p[0], p[1]
+				}
+				if from := len(mo.stored) - mo.n; f[1] == "evicted" && from > 0 && mo.n > 0 {
+					// the most recent of the messages the ring has dropped (its slot was reused last)
+					for i := from - 1; i >= 0; i-- {
+						if !mo.deleted[mo.stored[i]] {
+							p := strings.SplitN(mo.stored[i], "/", 2)
+							mb, id = p[0], p[1]
+							break
+						}
+					}
 				}
 				if f[1] == "newest" && len(h) > 0 {
 					p := strings.SplitN(h[len(h)-1], "/", 2)
